@@ -168,7 +168,13 @@ def clip (a : Args) : Option String := do
   let traces ← (a.get? "traces") >>= parseLines?
   let polys := allPolys areas
   let out := traces.map fun l => clipLine l polys
-  some s!"pieces={"#".intercalate (out.map showLines)}"
+  -- isolated touch: a boundary contact of the trace that is not on any positive-length piece
+  let touch := (traces.zip out).map fun (l, pcs) =>
+    let rs := allRingSegs polys
+    (segs l).any fun (a, b) => a != b && (cutParams a b rs).any fun t =>
+      let p := Pt.lerp a b t
+      (rs.any fun (c, d) => onSeg p c d) && !(pcs.any fun pc => (segs pc).any fun (u, v) => onSeg p u v)
+  some s!"pieces={"#".intercalate (out.map showLines)} touch={",".intercalate (touch.map showBool)}"
 
 end Cmd
 
